@@ -717,6 +717,61 @@ func runMesh(m *mesh, keys []keyInfo) {
 			return time.Since(since) > 120*time.Millisecond
 		})
 	}
+	// snapshot copies the observation counters into m.handed / m.wire and returns a fingerprint of them
+	snapshot := func() string {
+		mu.Lock()
+		defer mu.Unlock()
+		m.handed, m.wire = nil, nil
+		for i := range m.pubs {
+			row := make([]int, n)
+			for v := 0; v < n; v++ {
+				row[v] = handed[[2]int{i, v}]
+			}
+			m.handed = append(m.handed, row)
+			var w [][4]int
+			for lk, cnt := range linkCounts {
+				if cnt[i] > 0 {
+					w = append(w, [4]int{lk[0], lk[1], lk[2], cnt[i]})
+				}
+			}
+			sort.Slice(w, func(a, b int) bool {
+				for k := 0; k < 3; k++ {
+					if w[a][k] != w[b][k] {
+						return w[a][k] < w[b][k]
+					}
+				}
+				return false
+			})
+			m.wire = append(m.wire, w)
+		}
+		return fmt.Sprint(m.handed, m.wire)
+	}
+	// checkpoint is a quiescence point: take the observation; if the property text would be violated
+	// on it (e.g. an expected delivery or forward is missing) do not believe it yet: flooding may simply
+	// still be in progress on a loaded machine. Keep waiting until the observation has been unchanged
+	// for one second (at most 8 s), and leave the final observation in m.handed / m.wire.
+	checkpoint := func() {
+		time.Sleep(30 * time.Millisecond)
+		fp := snapshot()
+		if f, _ := meshFindings(m); len(f) == 0 || dead() {
+			return
+		}
+		deadline := time.Now().Add(8 * time.Second)
+		stableSince := time.Now()
+		for time.Now().Before(deadline) && time.Since(stableSince) < time.Second {
+			time.Sleep(20 * time.Millisecond)
+			if nfp := snapshot(); nfp != fp {
+				fp, stableSince = nfp, time.Now()
+				if f, _ := meshFindings(m); len(f) == 0 {
+					// complete now: still require the usual short idleness
+					quiet()
+					snapshot()
+					return
+				}
+			}
+		}
+		snapshot()
+	}
 	for _, ev := range m.evs {
 		switch ev.kind {
 		case "down":
@@ -789,6 +844,7 @@ func runMesh(m *mesh, keys []keyInfo) {
 				})
 			}
 			quiet()
+			checkpoint()
 		case "burst":
 			origin, ch, lid := ev.a, ev.b, ev.c
 			l := up[lid]
@@ -846,6 +902,7 @@ func runMesh(m *mesh, keys []keyInfo) {
 				return true
 			})
 			quiet()
+			checkpoint()
 		case "pub":
 			i := len(m.pubs)
 			origin, ch := ev.a, ev.b
@@ -883,6 +940,7 @@ func runMesh(m *mesh, keys []keyInfo) {
 				return true
 			})
 			quiet()
+			checkpoint()
 		}
 		if c := crashed.Load(); c != nil {
 			m.problem = "Execute panicked: " + c.(string)
@@ -890,31 +948,7 @@ func runMesh(m *mesh, keys []keyInfo) {
 		}
 	}
 	// everything of every publish is counted at the very end (late duplicates included)
-	time.Sleep(30 * time.Millisecond)
-	mu.Lock()
-	defer mu.Unlock()
-	for i := range m.pubs {
-		row := make([]int, n)
-		for v := 0; v < n; v++ {
-			row[v] = handed[[2]int{i, v}]
-		}
-		m.handed = append(m.handed, row)
-		var w [][4]int
-		for lk, cnt := range linkCounts {
-			if cnt[i] > 0 {
-				w = append(w, [4]int{lk[0], lk[1], lk[2], cnt[i]})
-			}
-		}
-		sort.Slice(w, func(a, b int) bool {
-			for k := 0; k < 3; k++ {
-				if w[a][k] != w[b][k] {
-					return w[a][k] < w[b][k]
-				}
-			}
-			return false
-		})
-		m.wire = append(m.wire, w)
-	}
+	checkpoint()
 }
 
 func pairList(l [][2]int) string {
@@ -989,93 +1023,9 @@ func c28(c *hx.Ctx) {
 		}
 		c.Case(hx.App("Mesh28", hx.Nat(m.n), tripleList(m.links), pairList(m.subs), hx.List(evT), hx.List(handedT), hx.List(wireT)), desc)
 		// ---- direct oracle, straight from the property text ----
-		nontriv := false
-		for i, p := range m.pubs {
-			origin, ch := p[0], p[1]
-			links := m.upAt[i]
-			reach := m.reachable(links, origin, ch)
-			for v := 0; v < m.n; v++ {
-				got := m.handed[i][v]
-				want := 0
-				if reach[v] && m.isSub(v, ch) {
-					want = 1
-				}
-				if got > 1 {
-					c.Failf("c28-duplicate-delivery", desc, "publish %d: node %d was handed the message %d times", i, v, got)
-				} else if got < want {
-					c.Failf("c28-not-delivered", desc, "publish %d (from %d on channel %d): subscriber %d is reachable through subscribers over the links that are up %v and was not handed the message", i, origin, ch, v, links)
-				} else if got > want {
-					c.Failf("c28-unexpected-delivery", desc, "publish %d: node %d was handed a message it should not get", i, v)
-				}
-				if got == 1 && v != origin {
-					nontriv = true
-				}
-			}
-			isUp := map[int]bool{}
-			for _, l := range links {
-				isUp[l[2]] = true
-			}
-			sent := map[[3]int]int{}
-			for _, e := range m.wire[i] {
-				sent[[3]int{e[0], e[1], e[2]}] = e[3]
-				if e[1] == origin {
-					c.Failf("c28-echo-origin", desc, "publish %d: node %d sent the message back to its publisher %d", i, e[0], origin)
-				}
-				if e[3] > 1 {
-					c.Failf("c28-link-duplicate", desc, "publish %d: %d copies on link %d->%d (id %d)", i, e[3], e[0], e[1], e[2])
-				}
-				if !reach[e[0]] {
-					c.Failf("c28-forward-by-unreached", desc, "publish %d: node %d forwarded a message it should never have accepted", i, e[0])
-				}
-				if !m.isSub(e[1], ch) {
-					c.Failf("c28-sent-to-non-subscriber", desc, "publish %d: sent to %d which does not subscribe", i, e[1])
-				}
-				if !isUp[e[2]] {
-					c.Failf("c28-sent-on-closed-link", desc, "publish %d: written on link %d which had been closed", i, e[2])
-				}
-			}
-			// a holder other than the origin leaves out exactly the links to one peer, its previous hop
-			// (which wrote to it); if it left out nothing, its previous hop must be the origin
-			for u := 0; u < m.n; u++ {
-				if u == origin || !reach[u] || m.handed[i][u] == 0 {
-					continue
-				}
-				missingPeers := map[int]bool{}
-				for _, l := range links {
-					for _, d := range [][2]int{{l[0], l[1]}, {l[1], l[0]}} {
-						if d[0] == u && d[1] != origin && m.isSub(d[1], ch) && sent[[3]int{u, d[1], l[2]}] == 0 {
-							missingPeers[d[1]] = true
-						}
-					}
-				}
-				fromPeer := func(w int) bool {
-					for k, v := range sent {
-						if k[0] == w && k[1] == u && v > 0 {
-							return true
-						}
-					}
-					return false
-				}
-				switch len(missingPeers) {
-				case 0:
-					if !fromPeer(origin) {
-						c.Failf("c28-echo-prevhop", desc, "publish %d: node %d wrote the message to every announced neighbour, including the one it got it from", i, u)
-					}
-				case 1:
-					for w := range missingPeers {
-						for k, v := range sent {
-							if k[0] == u && k[1] == w && v > 0 {
-								c.Failf("c28-echo-prevhop", desc, "publish %d: node %d wrote to %d on link %d but left out another link to the same peer", i, u, w, k[2])
-							}
-						}
-						if !fromPeer(w) {
-							c.Failf("c28-not-forwarded", desc, "publish %d: node %d did not forward to announced subscriber %d although it did not get the message from it", i, u, w)
-						}
-					}
-				default:
-					c.Failf("c28-not-forwarded", desc, "publish %d: node %d left out several announced subscribers %v", i, u, missingPeers)
-				}
-			}
+		findings, nontriv := meshFindings(m)
+		for _, f := range findings {
+			c.Failf(f[0], desc, "%s", f[1])
 		}
 		if nontriv {
 			c.Nontrivial(fmt.Sprint(m.kind, m.n, m.links, m.subs, evS))
@@ -1133,4 +1083,102 @@ func relinkInChild(c *hx.Ctx, rounds int) []string {
 		out = append(out, f.What)
 	}
 	return out
+}
+
+// meshFindings evaluates the property text on the observations of a mesh (m.pubs, m.upAt, m.handed,
+// m.wire): (key, what) per violation, and whether a message reached a node other than its publisher.
+// Pure: used by the child to decide whether to keep waiting (confirm before report) and by the
+// parent to report.
+func meshFindings(m *mesh) ([][2]string, bool) {
+	var out [][2]string
+	add := func(key, format string, a ...any) { out = append(out, [2]string{key, fmt.Sprintf(format, a...)}) }
+	nontriv := false
+	for i, p := range m.pubs {
+		origin, ch := p[0], p[1]
+		links := m.upAt[i]
+		reach := m.reachable(links, origin, ch)
+		for v := 0; v < m.n; v++ {
+			got := m.handed[i][v]
+			want := 0
+			if reach[v] && m.isSub(v, ch) {
+				want = 1
+			}
+			if got > 1 {
+				add("c28-duplicate-delivery", "publish %d: node %d was handed the message %d times", i, v, got)
+			} else if got < want {
+				add("c28-not-delivered", "publish %d (from %d on channel %d): subscriber %d is reachable through subscribers over the links that are up %v and was not handed the message", i, origin, ch, v, links)
+			} else if got > want {
+				add("c28-unexpected-delivery", "publish %d: node %d was handed a message it should not get", i, v)
+			}
+			if got == 1 && v != origin {
+				nontriv = true
+			}
+		}
+		isUp := map[int]bool{}
+		for _, l := range links {
+			isUp[l[2]] = true
+		}
+		sent := map[[3]int]int{}
+		for _, e := range m.wire[i] {
+			sent[[3]int{e[0], e[1], e[2]}] = e[3]
+			if e[1] == origin {
+				add("c28-echo-origin", "publish %d: node %d sent the message back to its publisher %d", i, e[0], origin)
+			}
+			if e[3] > 1 {
+				add("c28-link-duplicate", "publish %d: %d copies on link %d->%d (id %d)", i, e[3], e[0], e[1], e[2])
+			}
+			if !reach[e[0]] {
+				add("c28-forward-by-unreached", "publish %d: node %d forwarded a message it should never have accepted", i, e[0])
+			}
+			if !m.isSub(e[1], ch) {
+				add("c28-sent-to-non-subscriber", "publish %d: sent to %d which does not subscribe", i, e[1])
+			}
+			if !isUp[e[2]] {
+				add("c28-sent-on-closed-link", "publish %d: written on link %d which had been closed", i, e[2])
+			}
+		}
+		// a holder other than the origin leaves out exactly the links to one peer, its previous hop
+		// (which wrote to it); if it left out nothing, its previous hop must be the origin
+		for u := 0; u < m.n; u++ {
+			if u == origin || !reach[u] || m.handed[i][u] == 0 {
+				continue
+			}
+			missingPeers := map[int]bool{}
+			for _, l := range links {
+				for _, d := range [][2]int{{l[0], l[1]}, {l[1], l[0]}} {
+					if d[0] == u && d[1] != origin && m.isSub(d[1], ch) && sent[[3]int{u, d[1], l[2]}] == 0 {
+						missingPeers[d[1]] = true
+					}
+				}
+			}
+			fromPeer := func(w int) bool {
+				for k, v := range sent {
+					if k[0] == w && k[1] == u && v > 0 {
+						return true
+					}
+				}
+				return false
+			}
+			switch len(missingPeers) {
+			case 0:
+				if !fromPeer(origin) {
+					add("c28-echo-prevhop", "publish %d: node %d wrote the message to every announced neighbour, including the one it got it from", i, u)
+				}
+			case 1:
+				for w := range missingPeers {
+					for k, v := range sent {
+						if k[0] == u && k[1] == w && v > 0 {
+							add("c28-echo-prevhop", "publish %d: node %d wrote to %d on link %d but left out another link to the same peer", i, u, w, k[2])
+						}
+					}
+					if !fromPeer(w) {
+						add("c28-not-forwarded", "publish %d: node %d did not forward to announced subscriber %d although it did not get the message from it", i, u, w)
+					}
+				}
+			default:
+				add("c28-not-forwarded", "publish %d: node %d left out several announced subscribers %v", i, u, missingPeers)
+			}
+		}
+	}
+	return out, nontriv
 }
